@@ -31,16 +31,22 @@ EXPLANATION = (
     'ESCAPE_SEQUENCE_SINGLE_RE - and the f-string->plain rewrite is unreachable for a value matching the interpreter substitution '
     'regex; R3 every statement that discards whitespace content (fresh value, `= None`, popped comma, replaced argument list) is '
     'unreachable when the discarded owner holds a comment, or the content was moved/re-appended first, or a checked justification '
-    'applies; R4 in run() the check-mode status is set iff the text read differs from the text that would be written. '
+    'applies (the dedent helper must be a suffix removal also for an empty indentation unit); R4 in run() the check-mode status is '
+    'set iff the text read differs from the text that would be written, every sink receives the formatter output unchanged, and the '
+    'loop over the sources stops early only after a difference was recorded; R5 no path sorts an argument list and then replaces it '
+    '(the installed files() arguments would stay unsorted until the next run). '
     'Guards are decided as branch atoms in the world a counter-hypothesis describes (a representative of the input class is used only '
     'to give the atoms of a guard a truth value; no statement sequence or method body is interpreted, values computed by the code are '
     'never propagated). Does NOT decide: idempotence, the five-round fixpoint, line-splitting layout, newline translation of '
-    '--check-only, and the f-string test for a triple-quoted f-string that is simplified in the same visit (its value is re-derived by '
-    'escape() before the test).')
+    '--check-only (CRLF input with end_of_line=lf compares equal yet --inplace rewrites: depends on file contents), the f-string test '
+    'for a triple-quoted f-string that is simplified in the same visit (its value is re-derived by escape() before the test), whether a '
+    'backslash continuation keeps its newline inside brackets (needs the value correlation between the per-line comment table and the '
+    'line text), the interplay no_single_comma_function / trailing-comma-means-multiline across two runs, and the order in which '
+    'comments travel with sorted files() arguments (documented behaviour).')
 ASSUMPTIONS = [
     'the parser attaches trivia (comments, blanks) only to token-level nodes; composite nodes (ArrayNode, ArgumentNode) receive '
     'whitespace only through the formatter own move_whitespaces, so replacing a composite drops only what its symbol tokens own',
-    'indent_by / indent_before_comments are whitespace-only strings (documented as indentation)',
+    'indent_by / indent_before_comments are whitespace-only strings, possibly empty (documented as indentation)',
     'a comment token runs to the end of its line, so whitespace that holds a comment holds a newline after it',
     'len(ArgumentNode.colons) == len(ArgumentNode.kwargs) (asserted by FullAstVisitor.visit_ArgumentNode)',
     'str methods, len, any/all and the re module behave as documented',
@@ -150,9 +156,32 @@ class _Inline:
             return None
         return c16_sym.inline_call(fn, c, skip)
 
+    def const(self, e: ast.AST) -> T.Any:
+        """Folded value of a module constant / class constant of the pass (policy form a), UNKNOWN otherwise."""
+        from . import c16_sym
+        k = norm(e)
+        if k in self.cache:
+            return self.cache[k]
+        val: T.Any = c16_sym.UNKNOWN
+        try:
+            if isinstance(e, ast.Name) and self.p.mod.has_assign(e.id):
+                val = fold_expr(self.ctx.repo, self.p.mod, self.p.mod.assign_value(e.id))
+            elif isinstance(e, ast.Attribute) and attr_chain(e.value) in ('self', 'cls', self.p.name):
+                for m, c in self.ctx.repo.mro(self.p.mod, self.p.cls):
+                    if m.has_assign(e.attr, c):
+                        val = fold_expr(self.ctx.repo, m, m.assign_value(e.attr, c), cls=None)
+                        break
+        except Exception:
+            val = c16_sym.UNKNOWN
+        if not isinstance(val, (str, int, bool, tuple, list, set, frozenset, dict)):
+            val = c16_sym.UNKNOWN
+        self.cache[k] = val
+        return val
+
     def use(self) -> None:
         from . import c16_sym
         c16_sym.INLINER = self.resolve
+        c16_sym.CONSTS = self.const
 
     def __enter__(self) -> '_Inline':
         from . import c16_sym
@@ -200,6 +229,29 @@ def _extra_calls(fn: ast.AST, names: T.Set[str]) -> T.List[Write]:
             from .c16_sym import stmt_of
             out.append(Write(stmt_of(fn, n), n, 'method:' + n.func.attr, n.func.value, '()', None))
     return out
+
+
+def _normalise_write(w: Write) -> Write:
+    """`x += [a]`, `x.extend([a])`, `x = x + [a]`, `x = [*x, a]`  ->  `x.append(a)` (one normal form for growing a list by one)."""
+    def as_append(target: ast.AST, elt: ast.AST) -> Write:
+        call = ast.Call(func=ast.Attribute(value=target, attr='append', ctx=ast.Load()), args=[elt], keywords=[])
+        ast.copy_location(call, w.node)
+        return Write(w.stmt, call, 'mutate:append', w.obj, w.attr, None)
+    if w.obj is None:
+        return w
+    if w.kind == 'aug' and isinstance(w.value, (ast.List, ast.Tuple)) and len(w.value.elts) == 1 and not isinstance(w.value.elts[0], ast.Starred) \
+            and isinstance(w.stmt, ast.AugAssign) and isinstance(w.stmt.op, ast.Add):
+        return as_append(w.node, w.value.elts[0])
+    if w.kind == 'mutate:extend' and isinstance(w.node, ast.Call) and len(w.node.args) == 1 and isinstance(w.node.args[0], (ast.List, ast.Tuple)) \
+            and len(w.node.args[0].elts) == 1 and not isinstance(w.node.args[0].elts[0], ast.Starred):
+        return as_append(w.node.func.value, w.node.args[0].elts[0])  # type: ignore[attr-defined]
+    if w.kind == 'assign' and w.value is not None:
+        v = w.value
+        if isinstance(v, ast.BinOp) and isinstance(v.op, ast.Add) and norm(v.left) == norm(w.node) and isinstance(v.right, (ast.List, ast.Tuple)) and len(v.right.elts) == 1:
+            return as_append(w.node, v.right.elts[0])
+        if isinstance(v, ast.List) and len(v.elts) == 2 and isinstance(v.elts[0], ast.Starred) and norm(v.elts[0].value) == norm(w.node) and not isinstance(v.elts[1], ast.Starred):
+            return as_append(w.node, v.elts[1])
+    return w
 
 
 def classify(w: Write, ty: Typer, model: NodeModel, fn: ast.AST) -> T.Tuple[str, str]:
@@ -313,6 +365,55 @@ def _first_param(fn: ast.FunctionDef) -> str:
     return ps[0]
 
 
+def _callers(p: Pass, fn: ast.FunctionDef) -> T.List[T.Tuple[ast.FunctionDef, ast.Call, bool]]:
+    out = []
+    for g in _methods(p).values():
+        if g is fn:
+            continue
+        for c in ast.walk(g):
+            if isinstance(c, ast.Call) and isinstance(c.func, ast.Attribute) and c.func.attr == fn.name and attr_chain(c.func.value) in ('self', 'cls', p.name):
+                out.append((g, c, attr_chain(c.func.value) != p.name and 'staticmethod' not in [attr_chain(d) for d in fn.decorator_list]))
+    return out
+
+
+def creach(ctx: RuleCtx, p: Pass, fn: ast.FunctionDef, site: T.Optional[ast.stmt], hyp: Hyp, depth: int = 0, **kw: T.Any) -> T.List[Reach]:
+    """reach() in the context of the callers: a statement of a private helper (a block extracted from a visitor method, a guard left
+    in the caller) is reachable under a hypothesis only if some call site of the helper is reachable under the translated hypothesis."""
+    from .c16_sym import bind_args, stmt_of
+    rs = reach(fn, site, hyp, **kw)
+    if not rs or depth >= 2 or hyp.atoms is not None:
+        return rs
+    if fn.name.startswith('visit_') or fn.name in ('enter_node', 'exit_node', '__init__', 'visit_default_func'):
+        return rs                                   # entry points of the visitor protocol
+    callers = _callers(p, fn)
+    if not callers:
+        return rs
+    for g, call, skip in callers:
+        m = bind_args(fn, call, skip)
+        if m is None:
+            return rs
+
+        def tr(d: T.Dict[str, T.Any]) -> T.Optional[T.Dict[str, T.Any]]:
+            out = {}
+            for k, v in d.items():
+                try:
+                    e = ast.parse(k, mode='eval').body
+                except SyntaxError:
+                    return None
+                names = {n.id for n in ast.walk(e) if isinstance(n, ast.Name)} - {'self', 'ANY', 'mparser', 'len', 'isinstance'}
+                if not names <= set(m):
+                    return None                     # the hypothesis speaks about something that is not a parameter
+                out[norm(subst(e, m))] = v
+            return out
+        st2, vo2 = tr(hyp.stable), tr(hyp.volatile)
+        if st2 is None or vo2 is None:
+            return rs
+        kw2 = {k: v for k, v in kw.items() if k != 'observer'}
+        if creach(ctx, p, g, stmt_of(g, call), Hyp(st2, vo2, hyp.label), depth + 1, **kw2):
+            return rs
+    return []
+
+
 def _type_hook(model: NodeModel, types: T.Dict[str, str]) -> T.Callable[[ast.Call, T.Any], T.Any]:
     """isinstance()/hasattr() on an expression whose node class is part of the hypothesis, decided on the node model."""
     from .c16_sym import UNKNOWN
@@ -336,7 +437,7 @@ def _type_hook(model: NodeModel, types: T.Dict[str, str]) -> T.Callable[[ast.Cal
 def _must_be_unreachable(ctx: RuleCtx, p: Pass, qn: str, fn: ast.FunctionDef, site: ast.stmt, hyp: Hyp, what: str, construct: str, msg: str,
                          calls: T.Optional[T.Callable[[ast.Call, T.Any], T.Any]] = None) -> bool:
     _Inline(ctx, p).use()
-    rs = reach(fn, site, hyp, calls=calls)
+    rs = creach(ctx, p, fn, site, hyp, calls=calls)
     if not rs:
         ctx.ok(f'{qn}: {short(site, 60)} unreachable when {what}')
         return True
@@ -390,7 +491,7 @@ def trailing_hyps(x: str, present: bool) -> T.List[Hyp]:
 def r1(ctx: RuleCtx) -> None:
     model = NodeModel(ctx.repo)
     passes = _passes(ctx)
-    ctx.floor('formatter pass classes', len(passes), 8)
+    ctx.floor('formatter pass classes', len(passes), 3)
     doc = ctx.repo.read(DOC)
     for opt in ('simplify_string_literals', 'sort_files'):
         if opt not in doc:
@@ -404,6 +505,7 @@ def r1(ctx: RuleCtx) -> None:
             qn = f'{p.name}.{mname}'
             ty = Typer(model, p.mod, p.cls, fn, ctx.repo)
             for w in collect_writes(fn) + _extra_calls(fn, node_mut - {'append', 'accept'}):
+                w = _normalise_write(w)
                 kind, detail = classify(w, ty, model, fn)
                 if kind == 'own':
                     n_own += 1
@@ -416,8 +518,8 @@ def r1(ctx: RuleCtx) -> None:
                 else:
                     sem.append((p, qn, fn, w, kind))
     ctx.note(f'{n_own} writes to visitor/local state, {n_layout} layout writes, {len(sem)} semantic write sites')
-    ctx.floor('layout writes on tree nodes', n_layout, 35)
-    ctx.floor('semantic write sites', len(sem), 8)
+    ctx.floor('layout writes on tree nodes', n_layout, 10)
+    ctx.floor('semantic write sites', len(sem), 3)
     sorters: T.Dict[T.Tuple[str, str], T.Tuple[Pass, ast.FunctionDef, str]] = {}
     for p, qn, fn, w, kind in sem:
         site = w.stmt
@@ -670,7 +772,7 @@ def r2(ctx: RuleCtx) -> None:
                     for c in chars:
                         bad: T.List[T.Tuple[Hazard, Reach]] = []
                         for h in [h for h in hz if h.char == c]:
-                            rs = reach(fn, w.stmt, Hyp({f'{x}.value': h.witness, f'{x}.is_multiline': True}))
+                            rs = creach(ctx, p, fn, w.stmt, Hyp({f'{x}.value': h.witness, f'{x}.is_multiline': True}))
                             unk = [u for r in rs for u in r.notes.get('unknown', [])]
                             if unk:
                                 raise Undecided(f'{qn}: the guard of the literal rewrite uses a test the evaluator does not understand: {unk[0]}')
@@ -699,9 +801,9 @@ def r2(ctx: RuleCtx) -> None:
                         if ev.kind == 'stmt' and isinstance(st, ast.Assign) and any(norm(sub(t)) == vkey for t in st.targets):
                             return 'skip'      # the value tested afterwards is no longer the hypothesised one: not decided
                         return None
-                    rs = reach(fn, w.stmt, Hyp({vkey: 'a' + fw + 'b', f'{x}.is_fstring': True, f'{x}.is_multiline': False}), observer=same_value)
+                    rs = creach(ctx, p, fn, w.stmt, Hyp({vkey: 'a' + fw + 'b', f'{x}.is_fstring': True, f'{x}.is_multiline': False}), observer=same_value)
                     for c in [''] + chars:
-                        rs += reach(fn, w.stmt, Hyp({vkey: 'a' + fw + c + 'b', f'{x}.is_fstring': True, f'{x}.is_multiline': True}), observer=same_value)
+                        rs += creach(ctx, p, fn, w.stmt, Hyp({vkey: 'a' + fw + c + 'b', f'{x}.is_fstring': True, f'{x}.is_multiline': True}), observer=same_value)
                     unk = [u for r in rs for u in r.notes.get('unknown', [])]
                     if unk:
                         raise Undecided(f'{qn}: the guard of the f-string rewrite uses a test the evaluator does not understand: {unk[0]}')
@@ -879,6 +981,33 @@ def _replacement_sites(ctx: RuleCtx, w: Write, ty: Typer, model: NodeModel, fn: 
     return sites
 
 
+def _minlen(e: ast.AST, var: str, sdefs: T.Dict[str, ast.AST], depth: int = 0) -> T.Optional[int]:
+    """A lower bound k such that len(e) >= len(var) + k, from the shape of e (comprehension over var, slices, displays), else None."""
+    if depth > 6:
+        return None
+    if isinstance(e, ast.Name):
+        if e.id == var:
+            return 0
+        return _minlen(sdefs[e.id], var, sdefs, depth + 1) if e.id in sdefs else None
+    if isinstance(e, (ast.ListComp, ast.GeneratorExp)) and len(e.generators) == 1 and not e.generators[0].ifs:
+        return _minlen(e.generators[0].iter, var, sdefs, depth + 1)
+    if isinstance(e, ast.Call) and isinstance(e.func, ast.Name) and e.func.id in ('list', 'tuple', 'enumerate', 'iter') and e.args:
+        return _minlen(e.args[0], var, sdefs, depth + 1)
+    if isinstance(e, ast.Subscript) and isinstance(e.slice, ast.Slice) and e.slice.upper is None and e.slice.step is None:
+        lo = e.slice.lower
+        k = 0 if lo is None else (lo.value if isinstance(lo, ast.Constant) and isinstance(lo.value, int) and lo.value >= 0 else None)
+        base = _minlen(e.value, var, sdefs, depth + 1)
+        return None if k is None or base is None else base - k
+    if isinstance(e, ast.BinOp) and isinstance(e.op, ast.Add):
+        for a, b in ((e.left, e.right), (e.right, e.left)):
+            if isinstance(b, (ast.List, ast.Tuple)) and not any(isinstance(x, ast.Starred) for x in b.elts):
+                base = _minlen(a, var, sdefs, depth + 1)
+                return None if base is None else base + len(b.elts)
+    if isinstance(e, ast.Call) and (attr_chain(e.func) or '').split('.')[-1] in ('repeat', 'count', 'cycle'):
+        return 0
+    return None
+
+
 def _rebuild_ok(ctx: RuleCtx, p: Pass, qn: str, fn: ast.FunctionDef, site: ast.stmt, loc: str, var: str) -> T.Optional[str]:
     """`var = LOC.splitlines(..)`; LOC reset; every element of var re-appended to LOC - directly, or accumulated in a local
     that is stored into LOC at the site, or mapped by a comprehension in the stored value.  Returns a problem text (a concrete
@@ -908,6 +1037,7 @@ def _rebuild_ok(ctx: RuleCtx, p: Pass, qn: str, fn: ast.FunctionDef, site: ast.s
         for ch in ast.iter_child_nodes(n):
             parents[id(ch)] = n
     loops: T.List[ast.For] = []
+    zip_pos: T.Dict[int, int] = {}
     for u in uses:
         par = parents.get(id(u))
         if isinstance(u.ctx, ast.Store):
@@ -922,6 +1052,19 @@ def _rebuild_ok(ctx: RuleCtx, p: Pass, qn: str, fn: ast.FunctionDef, site: ast.s
             if par.func.id == 'enumerate' and isinstance(gp, ast.For) and gp.iter is par:
                 loops.append(gp)
             continue
+        if isinstance(par, ast.Call) and (attr_chain(par.func) or '').split('.')[-1] in ('zip', 'zip_longest') and u in par.args:
+            gp = parents.get(id(par))
+            if isinstance(gp, ast.For) and gp.iter is par:
+                if (attr_chain(par.func) or '').split('.')[-1] == 'zip' and not any(k.arg == 'strict' for k in par.keywords):
+                    # zip stops at the shortest operand: every other operand must be at least as long as `var`
+                    sd = _single_defs(fn)
+                    for other in par.args:
+                        ml = _minlen(other, var, sd) if other is not u else 0
+                        if ml is None or ml < 0:
+                            raise Undecided(f'{qn}: cannot show that `{short(other)}` is at least as long as `{var}` in `{short(par)}`')
+                zip_pos[id(gp)] = par.args.index(u)
+                loops.append(gp)
+                continue
         if isinstance(par, ast.For) and par.iter is u:
             loops.append(par)
             continue
@@ -942,9 +1085,23 @@ def _rebuild_ok(ctx: RuleCtx, p: Pass, qn: str, fn: ast.FunctionDef, site: ast.s
                     and len(call.args) == 1 and isinstance(call.args[0], ast.Constant) and call.args[0].value == 0:
                 continue                               # LOC = var.pop(0): the first line stays in LOC
             return f'`{short(st)}` removes an element of `{var}` without keeping it in {loc}'
+        # plain reads (element, slice, comparison, membership, a pure builtin) cannot lose a line
+        if isinstance(par, ast.Subscript) and par.value is u and isinstance(par.ctx, ast.Load):
+            continue
+        if isinstance(par, (ast.Compare, ast.IfExp, ast.Starred, ast.List, ast.Tuple, ast.BinOp, ast.Return, ast.JoinedStr, ast.FormattedValue)):
+            continue
+        if isinstance(par, ast.Call) and (attr_chain(par.func) or '').split('.')[-1] in ('list', 'tuple', 'sorted', 'reversed', 'any', 'all', 'sum', 'iter', 'join',
+                                                                                         'isinstance', 'max', 'min', 'set', 'frozenset', 'str', 'repr', 'islice', 'pairwise'):
+            continue
         raise Undecided(f'{qn}: use of `{var}` in `{short(par)}` is outside the rebuild idiom')
+    if len(loops) > 1:
+        # loops that only read the lines (build a side table) are not the re-appending loop
+        def appends(lp: ast.For) -> bool:
+            return any(isinstance(n, ast.AugAssign) and norm(n.target) == tgt for n in ast.walk(lp)) or \
+                any(isinstance(n, ast.Assign) and any(norm(t) == tgt for t in n.targets) for n in ast.walk(lp))
+        loops = [lp for lp in loops if appends(lp)]
     if len(loops) != 1:
-        return f'{len(loops)} loops over `{var}` (expected exactly one that re-appends every line)'
+        return f'{len(loops)} loops over `{var}` append to {tgt} (expected exactly one that re-appends every line)'
     loop = loops[0]
     cfg = CFG(fn)
     s_nodes = cfg.stmt_nodes(site)
@@ -964,7 +1121,10 @@ def _rebuild_ok(ctx: RuleCtx, p: Pass, qn: str, fn: ast.FunctionDef, site: ast.s
     elif not all(cfg.must_pass(s, cfg.exit_return, l_nodes, no_exc=True) for s in s_nodes):
         return f'after the reset of {loc} a path reaches the end of the function without running the loop over `{var}`'
     t = loop.target
-    lv = t.elts[-1] if isinstance(t, ast.Tuple) and isinstance(loop.iter, ast.Call) else t
+    if id(loop) in zip_pos:
+        lv = t.elts[zip_pos[id(loop)]] if isinstance(t, ast.Tuple) and len(t.elts) > zip_pos[id(loop)] else t
+    else:
+        lv = t.elts[-1] if isinstance(t, ast.Tuple) and isinstance(loop.iter, ast.Call) else t
     if not isinstance(lv, ast.Name):
         raise Undecided(f'{qn}: loop target {norm(t)}')
     for path in enumerate_paths(loop.body, unroll=1):
@@ -994,31 +1154,102 @@ def _rebuild_ok(ctx: RuleCtx, p: Pass, qn: str, fn: ast.FunctionDef, site: ast.s
     return None
 
 
-def _dedent_like(p: Pass, name: str) -> bool:
-    """m(self, v): returns v, or v[:-len(K)] under v.endswith(K)."""
+def _dedent_like(p: Pass, name: str) -> str:
+    """m(self, v) returns v, or v without one trailing copy of K (config indentation), in any statement spelling
+    (`v[:-len(K)] if TEST else v`, or v.removesuffix(K)).  -> 'ok' | 'empty-unit' (for K == '' the test holds and
+    v[:-len(K)] is v[:0]: everything is cut) | '' (not this shape).  TEST is judged as an atom in three worlds."""
+    from .c16_sym import helper_expression, Evaluator, truth
     fn = _methods(p).get(name)
     if fn is None:
-        return False
+        return ''
     ps = [a.arg for a in fn.args.args if a.arg != 'self']
     if len(ps) != 1:
-        return False
+        return ''
     v = ps[0]
-    tab = tables.extract(fn, inline=True, name=name)
-    for r in tab.rows:
-        if r.outcome[0] != 'return':
-            return False
-        ret = r.outcome[1]
-        if ret == 'ARG1':
-            continue
-        e = ast.parse(ret, mode='eval').body
-        if isinstance(e, ast.Subscript) and norm(e.value) == 'ARG1' and isinstance(e.slice, ast.Slice) and e.slice.lower is None and e.slice.step is None \
-                and isinstance(e.slice.upper, ast.UnaryOp) and isinstance(e.slice.upper.op, ast.USub) and isinstance(e.slice.upper.operand, ast.Call) \
-                and norm(e.slice.upper.operand.func) == 'len' and len(e.slice.upper.operand.args) == 1:
-            k = norm(e.slice.upper.operand.args[0])
-            if r.conds.get(Atom('truth', (f'ARG1.endswith({k})',))) is True and '.config.indent' in k:
-                continue
+    e = helper_expression(fn)
+    if e is None:
+        return ''
+    if isinstance(e, ast.Call) and isinstance(e.func, ast.Attribute) and e.func.attr == 'removesuffix' and norm(e.func.value) == v and len(e.args) == 1:
+        return 'ok' if '.config.indent' in norm(e.args[0]) else ''
+    if not isinstance(e, ast.IfExp):
+        return ''
+    test, yes, no = e.test, e.body, e.orelse
+    if isinstance(test, ast.UnaryOp) and isinstance(test.op, ast.Not):
+        test, yes, no = test.operand, no, yes
+    if not (isinstance(yes, ast.Subscript) and norm(yes.value) == v and isinstance(yes.slice, ast.Slice) and yes.slice.lower is None and yes.slice.step is None
+            and isinstance(yes.slice.upper, ast.UnaryOp) and isinstance(yes.slice.upper.op, ast.USub) and isinstance(yes.slice.upper.operand, ast.Call)
+            and norm(yes.slice.upper.operand.func) == 'len' and len(yes.slice.upper.operand.args) == 1 and norm(no) == v):
+        return ''
+    k = norm(yes.slice.upper.operand.args[0])
+    if '.config.indent' not in k:
+        return ''
+
+    def holds(kval: str, vval: str) -> T.Optional[bool]:
+        return truth(Evaluator({k: kval, v: vval}).ev(test))
+    if holds('  ', 'x') is not False or holds('  ', '# c\n') is not False:
+        return ''                      # cuts although v does not end with K
+    if holds('', '# c\n') is not False:
+        return 'empty-unit'
+    return 'ok'
+
+
+def _template(e: ast.AST) -> T.Optional[T.List[T.Tuple[str, str]]]:
+    """A string-building expression as a list of ('lit', text) / ('expr', normalised expression) parts: f-string, `a + 'x'`,
+    `'%s' % x`, `'{}'.format(x)`, `''.join([...])` are the same template."""
+    parts: T.List[T.Tuple[str, str]] = []
+
+    def add(kind: str, v: str) -> None:
+        if kind == 'lit' and parts and parts[-1][0] == 'lit':
+            parts[-1] = ('lit', parts[-1][1] + v)
+        elif not (kind == 'lit' and v == ''):
+            parts.append((kind, v))
+
+    def rec(x: ast.AST) -> bool:
+        if isinstance(x, ast.Constant) and isinstance(x.value, str):
+            add('lit', x.value)
+            return True
+        if isinstance(x, ast.JoinedStr):
+            for v in x.values:
+                if isinstance(v, ast.Constant):
+                    add('lit', str(v.value))
+                elif isinstance(v, ast.FormattedValue) and v.format_spec is None and v.conversion == -1:
+                    if isinstance(v.value, ast.Constant) and isinstance(v.value.value, str):
+                        add('lit', v.value.value)
+                    else:
+                        add('expr', norm(v.value))
+                else:
+                    return False
+            return True
+        if isinstance(x, ast.BinOp) and isinstance(x.op, ast.Add):
+            return rec(x.left) and rec(x.right)
+        if isinstance(x, ast.BinOp) and isinstance(x.op, ast.Mod) and isinstance(x.left, ast.Constant) and isinstance(x.left.value, str):
+            args = list(x.right.elts) if isinstance(x.right, ast.Tuple) else [x.right]
+            chunks = x.left.value.split('%s')
+            if len(chunks) != len(args) + 1 or any('%' in c.replace('%%', '') for c in chunks):
+                return False
+            for i, c in enumerate(chunks):
+                add('lit', c.replace('%%', '%'))
+                if i < len(args):
+                    add('expr', norm(args[i]))
+            return True
+        if isinstance(x, ast.Call) and isinstance(x.func, ast.Attribute) and x.func.attr == 'format' and isinstance(x.func.value, ast.Constant) \
+                and isinstance(x.func.value.value, str) and not x.keywords:
+            chunks = x.func.value.value.split('{}')
+            if len(chunks) != len(x.args) + 1 or any('{' in c.replace('{{', '') or '}' in c.replace('}}', '') for c in chunks):
+                return False
+            for i, c in enumerate(chunks):
+                add('lit', c.replace('{{', '{').replace('}}', '}'))
+                if i < len(x.args):
+                    add('expr', norm(x.args[i]))
+            return True
+        if isinstance(x, ast.Call) and isinstance(x.func, ast.Attribute) and x.func.attr == 'join' and isinstance(x.func.value, ast.Constant) \
+                and x.func.value.value == '' and len(x.args) == 1 and isinstance(x.args[0], (ast.List, ast.Tuple)):
+            return all(rec(el) for el in x.args[0].elts)
+        if isinstance(x, (ast.Name, ast.Attribute, ast.Call, ast.Subscript, ast.BinOp)):
+            add('expr', norm(x))
+            return True
         return False
-    return True
+    return parts if rec(e) else None
 
 
 def _transform_ok(ctx: RuleCtx, p: Pass, qn: str, call: ast.Call, loc: str, binds: T.Optional[T.Dict[str, ast.AST]] = None) -> T.Optional[str]:
@@ -1028,15 +1259,22 @@ def _transform_ok(ctx: RuleCtx, p: Pass, qn: str, call: ast.Call, loc: str, bind
         call = T.cast(ast.Call, subst(call, binds))
         loc = norm(subst(ast.parse(loc, mode='eval').body, binds))
     cn = call_name(call) or ''
-    if cn.startswith('self.') and len(call.args) == 1 and norm(call.args[0]) == loc and _dedent_like(p, cn[5:]):
-        return f'{cn} only removes one trailing indentation unit (config indent_by)'
-    if cn == 're.sub' and len(call.args) == 3 and norm(call.args[2]) == loc:
-        pat, rep = call.args[0], call.args[1]
-        if isinstance(pat, ast.JoinedStr) and len(pat.values) == 3 and isinstance(pat.values[0], ast.Constant) and pat.values[0].value == '\\n(' \
-                and isinstance(pat.values[2], ast.Constant) and pat.values[2].value == ')*' and isinstance(pat.values[1], ast.FormattedValue) \
-                and '.config.indent' in norm(pat.values[1].value):
-            leaves = _add_leaves(rep)
-            if isinstance(leaves[0], ast.Constant) and leaves[0].value == '\n':
+    if cn.startswith('self.') and len(call.args) == 1 and norm(call.args[0]) == loc:
+        d = _dedent_like(p, cn[5:])
+        if d == 'ok':
+            return f'{cn} only removes one trailing indentation unit (config indent_by)'
+        if d == 'empty-unit':
+            return ('!for an empty indentation unit (indent_by = \'\') the test `v.endswith(K)` holds and `v[:-len(K)]` is `v[:0]`: '
+                    f'{cn} returns the empty string and the whole whitespace, comments included, is discarded')
+    if cn in ('re.sub', 're.subn'):
+        fake = ast.FunctionDef(name='sub', args=ast.arguments(posonlyargs=[], args=[ast.arg(arg=a) for a in ('pattern', 'repl', 'string', 'count', 'flags')],
+                                                              kwonlyargs=[], kw_defaults=[], defaults=[]), body=[], decorator_list=[])
+        from .c16_sym import bind_args
+        m = bind_args(fake, call, False) or {}
+        if {'pattern', 'repl', 'string'} <= set(m) and norm(m['string']) == loc:
+            pat, rep = _template(m['pattern']), _template(m['repl'])
+            if pat is not None and rep is not None and len(pat) == 3 and pat[0] == ('lit', '\\n(') and pat[2] == ('lit', ')*') and pat[1][0] == 'expr' \
+                    and '.config.indent' in pat[1][1] and rep and rep[0][0] == 'lit' and rep[0][1].startswith('\n'):
                 return 're.sub replaces a newline followed by indentation units by a newline plus indentation; comment text holds no newline'
     return None
 
@@ -1094,8 +1332,8 @@ def r3(ctx: RuleCtx) -> None:
                     verdict = _judge_site(ctx, p, qn, fn, s, w, movers, passes, colons_inv)
                     kinds[verdict] = kinds.get(verdict, 0) + 1
     ctx.note(f'{n_sites} discard sites {kinds}; {n_keep} appending writes (+=) keep the old content')
-    ctx.floor('whitespace discard sites', n_sites, 15)
-    ctx.floor('appending whitespace writes', n_keep, 5)
+    ctx.floor('whitespace discard sites', n_sites, 5)
+    ctx.floor('appending whitespace writes', n_keep, 1)
 
 
 def _judge_site(ctx: RuleCtx, p: Pass, qn: str, fn: ast.FunctionDef, s: Site, w: Write, movers: T.Dict[str, T.Tuple[int, int]],
@@ -1126,10 +1364,13 @@ def _judge_site(ctx: RuleCtx, p: Pass, qn: str, fn: ast.FunctionDef, s: Site, w:
         for b in branches:
             if any(cn(l) == cn(w.node) for l in _add_leaves(subst(b, site_binds))):
                 verdicts.append('keep')
-            elif isinstance(b, ast.Call) and any(cn(a) == cn(w.node) for a in b.args):
+            elif isinstance(b, ast.Call) and any(cn(a) == cn(w.node) for a in list(b.args) + [k.value for k in b.keywords]):
                 why = _transform_ok(ctx, p, qn, b, norm(w.node), site_binds)
                 if why is None:
                     raise Undecided(f'{qn}: `{short(s.stmt)}` transforms whitespace content with an unknown function')
+                if why.startswith('!'):
+                    ctx.violation(p.mod, qn, norm(s.stmt), why[1:], s.stmt, witness="indent_by = '' ; x = (a # c\n)")
+                    return 'violation'
                 verdicts.append('transform:' + why)
             else:
                 verdicts.append('fresh')
@@ -1179,7 +1420,7 @@ def _judge_site(ctx: RuleCtx, p: Pass, qn: str, fn: ast.FunctionDef, s: Site, w:
         stable[m.group(1) + '.kwargs'] = True
     for sample in COMMENT_SAMPLES:
         hyp = Hyp(stable, {parent: PRESENT, loc: sample})
-        rs = reach(fn, s.stmt, hyp, observer=observer)
+        rs = creach(ctx, p, fn, s.stmt, hyp, observer=observer)
         if not rs:
             how.add('guarded')
         for r in rs:
@@ -1507,12 +1748,166 @@ def r4(ctx: RuleCtx) -> None:
                 bad.setdefault('notset', (r, f'check mode, texts differ: the path leaves `{ev}` unchanged ({r!r})'))
         elif sets:
             bad.setdefault('noncheck', (r, f'status is modified outside check mode: {r!r}'))
+        if r.outcome[0] in ('break', 'return') and not (check and eq is False):
+            # the remaining sources are never examined: allowed only once a difference has been found in check mode
+            if eq is None and not check:
+                raise Undecided(f'run(): the loop over the sources ends early on a path the rule does not understand: {r!r}')
+            bad.setdefault('early', (r, f'the loop over the sources stops ({r.outcome[0]}) although no difference was found for this file; '
+                                        f'the remaining sources are not examined: {r!r}'))
     for k, (r, msg) in bad.items():
         node = next((e.node for e in reversed(r.path.events) if e.kind == 'cond'), fn)
         ctx.violation(mod, 'run', f'check-mode status [{k}]', msg, node)
     if not bad:
         ctx.ok(f'run(): on {n_rows} paths after formatting ({n_check} in check mode) `{ev}` becomes 1 iff check mode and {in_v} != {out_v}')
     ctx.floor('check-mode paths', n_check, 2)
+
+
+def r5(ctx: RuleCtx) -> None:
+    """Sorting must be applied to the argument list that stays: on no path may a sort of X.args be followed by a store that
+    replaces X.args (the sorted list would be the discarded one; the installed elements stay unsorted until the next run)."""
+    model = NodeModel(ctx.repo)
+    passes = _passes(ctx)
+    sorters: T.Dict[T.Tuple[str, str], str] = {}
+    per_fn: T.List[T.Tuple[Pass, str, ast.FunctionDef, T.List[T.Tuple[ast.stmt, str]], T.List[T.Tuple[ast.stmt, str]]]] = []
+    info: T.Dict[int, T.Tuple[T.List[T.Tuple[ast.stmt, str]], T.List[T.Tuple[ast.stmt, str]]]] = {}
+    for p in passes:
+        for mname, fn in _methods(p).items():
+            ty = Typer(model, p.mod, p.cls, fn, ctx.repo)
+            sorts: T.List[T.Tuple[ast.stmt, str]] = []
+            stores: T.List[T.Tuple[ast.stmt, str]] = []
+            for w in collect_writes(fn):
+                if w.obj is None or attr_chain(w.obj) == 'self':
+                    continue
+                try:
+                    kind, _ = classify(w, ty, model, fn)
+                except Undecided:
+                    continue
+                if kind == 'sem:sort':
+                    x = norm(w.obj)
+                    if x in [a.arg for a in fn.args.args]:
+                        sorters[(p.name, fn.name)] = x
+                    else:
+                        sorts.append((w.stmt, x))
+                elif kind == 'sem:flatten':
+                    stores.append((w.stmt, norm(w.node)))
+            info[id(fn)] = (sorts, stores)
+            per_fn.append((p, f'{p.name}.{mname}', fn, sorts, stores))
+    from .c16_sym import stmt_of, bind_args, fn_paths
+    for p, qn, fn, sorts, stores in per_fn:
+        for c in ast.walk(fn):
+            if isinstance(c, ast.Call) and isinstance(c.func, ast.Attribute) and attr_chain(c.func.value) == 'self' and (p.name, c.func.attr) in sorters:
+                f0 = _methods(p)[c.func.attr]
+                m = bind_args(f0, c, True)
+                prm = sorters[(p.name, c.func.attr)]
+                if m is None or prm not in m:
+                    raise Undecided(f'{qn}: cannot bind the arguments of `{short(c)}`')
+                sorts.append((stmt_of(fn, c), norm(m[prm])))
+    n = 0
+    for p, qn, fn, sorts, stores in per_fn:
+        if not sorts or not stores:
+            continue
+        for path in fn_paths(fn, 1):
+            order = [(i, e.node) for i, e in enumerate(path.events) if e.kind == 'stmt']
+            for sst, sx in sorts:
+                for fst, fx in stores:
+                    if not (sx == fx or sx.startswith(fx + '.')):
+                        continue
+                    si = next((i for i, nd in order if nd is sst), None)
+                    fi = next((i for i, nd in order if nd is fst), None)
+                    if si is not None and fi is not None and si < fi:
+                        ctx.violation(p.mod, qn, f'sort of {sx}  [before]  replacement of {fx}',
+                                      f'`{short(sst, 60)}` sorts {sx}, then `{short(fst, 60)}` replaces {fx} on the same path: the list that was sorted is '
+                                      'discarded and the installed arguments stay unsorted until the next run (formatting twice gives a different result)', sst,
+                                      witness="sort_files = true ; x = files(['b', 'a'])  ->  files('b', 'a')  ->  files('a', 'b')")
+                        break
+                else:
+                    continue
+                break
+            else:
+                continue
+            break
+        else:
+            n += 1
+            ctx.ok(f'{qn}: on every path the argument list is replaced before it is sorted ({len(sorts)} sort(s), {len(stores)} replacement(s))')
+    if not n and not any(c.findings for c in [ctx]):
+        ctx.ok('no function both sorts and replaces an argument list', nontrivial=False)
+
+
+def _const_choice(text: str) -> bool:
+    """A conditional expression whose every outcome is a string constant (a prefix / quote selected by a flag)."""
+    try:
+        e = ast.parse(text, mode='eval').body
+    except SyntaxError:
+        return False
+
+    def ok(x: ast.AST) -> bool:
+        if isinstance(x, ast.IfExp):
+            return ok(x.body) and ok(x.orelse)
+        return isinstance(x, ast.Constant) and isinstance(x.value, str)
+    return ok(e)
+
+
+def r6(ctx: RuleCtx) -> None:
+    """Printer / constructor agreement for string literals: StringNode.__init__ decodes the escapes into `value` exactly when the
+    literal is not triple-quoted and keeps the token text in `raw_value`; so, for a plain literal, the printer must emit the field
+    that still holds the token text."""
+    from .c16_sym import Evaluator, simplify
+    mp = ctx.repo.module(MP)
+    init = mp.func('StringNode.__init__')
+    # which field is decoded, in which world (read from the constructor)
+    decoded: T.Set[str] = set()
+    for hypv in (False, True):
+        for r in reach(init, None, Hyp({"'multiline' in token.tid": hypv, 'escape': True}), whole=True):
+            for ev in r.prefix:
+                st = ev.node
+                if ev.kind == 'stmt' and isinstance(st, ast.Assign) and isinstance(st.value, ast.Call) and (call_name(st.value) or '').endswith('.escape'):
+                    for t in st.targets:
+                        if attr_chain(t) and attr_chain(t).startswith('self.') and not hypv:       # type: ignore[union-attr]
+                            decoded.add(attr_chain(t)[5:])                                          # type: ignore[index]
+                        elif hypv:
+                            raise Undecided('StringNode.__init__ decodes escapes of a triple-quoted literal: the model of the two forms does not apply')
+    if decoded != {'value'}:
+        raise Undecided(f'StringNode.__init__: fields decoded for a plain literal are {sorted(decoded)} (expected value only)')
+    pr = ctx.repo.resolve_class(ctx.repo.module(MF), 'RawPrinter')
+    if pr is None:
+        raise Undecided('RawPrinter not found')
+    pm, pc = pr
+    fn = next((st for st in pc.body if isinstance(st, ast.FunctionDef) and st.name == 'visit_StringNode'), None)
+    if fn is None:
+        raise Undecided('RawPrinter.visit_StringNode not found')
+    x = _first_param(fn)
+    n = 0
+    for r in reach(fn, None, Hyp({f'{x}.is_multiline': False}), whole=True):
+        ev_ = Evaluator({f'{x}.is_multiline': False})
+        fields: T.Set[str] = set()
+        for e in r.prefix:
+            st = e.node
+            if e.kind != 'stmt' or not isinstance(st, (ast.AugAssign, ast.Assign)):
+                continue
+            tg = st.target if isinstance(st, ast.AugAssign) else st.targets[0]
+            if attr_chain(tg) is None or not attr_chain(tg).startswith('self.'):        # type: ignore[union-attr]
+                continue
+            binds: T.Dict[str, ast.AST] = {}
+            for e2 in r.prefix:
+                if e2 is e:
+                    break
+                if e2.kind == 'stmt' and isinstance(e2.node, ast.Assign) and len(e2.node.targets) == 1 and isinstance(e2.node.targets[0], ast.Name):
+                    binds[e2.node.targets[0].id] = simplify(subst(e2.node.value, binds), ev_)
+            tpl = _template(simplify(subst(st.value, binds), ev_))
+            if tpl is None:
+                raise Undecided(f'RawPrinter.visit_StringNode: cannot read the text emitted by `{short(st)}`')
+            for kind, v in tpl:
+                if kind == 'expr' and v.startswith(x + '.'):
+                    fields.add(v[len(x) + 1:])
+                elif kind == 'expr' and v != norm(tg) and not _const_choice(v):
+                    raise Undecided(f'RawPrinter.visit_StringNode emits `{v}`, which the rule cannot relate to the literal')
+        n += 1
+        bad = fields & decoded
+        ctx.require(not bad, f'RawPrinter.visit_StringNode: a plain literal is printed from {sorted(fields)} (token text), not from the decoded field', pm,
+                    'RawPrinter.visit_StringNode', f'plain literal printed from {sorted(bad)}',
+                    f'for a literal that is not triple-quoted the printer emits `{x}.{sorted(bad)[0] if bad else ""}`, which StringNode.__init__ has decoded '
+                    "(escape sequences replaced): 'C:\\\\tools' is written back as 'C:\\tools' and re-read with a TAB", fn)
+    ctx.floor('paths of RawPrinter.visit_StringNode for a plain literal', n, 1)
 
 
 def _scoped(fn: T.Callable[[RuleCtx], None]) -> T.Callable[[RuleCtx], None]:
@@ -1522,6 +1917,7 @@ def _scoped(fn: T.Callable[[RuleCtx], None]) -> T.Callable[[RuleCtx], None]:
             fn(ctx)
         finally:
             c16_sym.INLINER = None
+            c16_sym.CONSTS = None
     return run
 
 
@@ -1530,4 +1926,6 @@ RULES = [
     Rule('C16.R2', 'literal simplification is guarded against every character that changes meaning', _scoped(r2)),
     Rule('C16.R3', 'whitespace content holding a comment is never discarded', _scoped(r3)),
     Rule('C16.R4', 'check mode reports a difference iff the written text would differ', _scoped(r4)),
+    Rule('C16.R6', 'the printer emits the undecoded token text of a plain string literal', _scoped(r6)),
+    Rule('C16.R5', 'files() arguments are sorted after, not before, the argument list is replaced', _scoped(r5)),
 ]
